@@ -43,6 +43,13 @@ def docs():
         E('p:a', None, [E('a')], ns=[('p', 'u1')]),
         E('a'),
     ])], name='N1'))
+    # the same prefix bound to different namespaces in different subtrees (and the same namespace under two prefixes)
+    out.append(R.make_doc([E('r', None, [
+        E('p:a', None, [E('p:a'), E('p:b', [('p:x', '1')])], ns=[('p', 'u1')]),
+        E('g', None, [E('p:a'), E('p:a', [('p:x', '2')], [E('p:a')]), E('p:b')], ns=[('p', 'u2')]),
+        E('p:a', None, [E('q:a', None, [], ns=[('q', 'u1')])], ns=[('p', 'u1')]),
+        E('g', None, [E('p:a', [('p:x', '3')])], ns=[('p', 'u2')]),
+    ])], name='N2'))
     return out
 
 
@@ -347,7 +354,7 @@ def history_shard(shard, nshards, tier):
     if thorough:
         insts = [(l, c, f) for l in LEVELS for c in COUNTS for f in FROMS[:7]]
     jobs = []
-    for di in (3, 2) if not thorough else range(len(D)):
+    for di in (3, 2, 4) if not thorough else range(len(D)):
         d = D[di]
         o = D[(di + 1) % len(D)]
         elems = [(0, n) for n in d.nodes if n.kind in (R.ELEM, R.TEXT)]
